@@ -40,6 +40,7 @@ type check struct {
 	tier     string
 	units    []unit
 	seqs     [][]int
+	nthSeqs  [][]int
 	shapes   []string
 	heights  []int
 	pbCases  int
@@ -55,6 +56,7 @@ const (
 	famPageBox
 	famFlow
 	famCounters
+	famNth // second generation of the cascade family: the :nth(An+B) menu
 )
 
 // shapes, simplest first. small = explored one deviation level deeper.
@@ -107,6 +109,19 @@ func (c *check) Init(tier string, seed int64) engine.Space {
 			nCascade += hi - lo
 		}
 	}
+	// (i) second generation: :nth(An+B)
+	c.nthSeqs = nthSequences(thorough)
+	nNth := 0
+	for d := range nthDocs {
+		for lo := 0; lo < len(c.nthSeqs); lo += batch {
+			hi := lo + batch
+			if hi > len(c.nthSeqs) {
+				hi = len(c.nthSeqs)
+			}
+			c.units = append(c.units, unit{fam: famNth, doc: d, lo: lo, hi: hi})
+			nNth += hi - lo
+		}
+	}
 	// (ib)
 	c.pbCases = len(pageBoxCases())
 	for lo := 0; lo < c.pbCases; lo += batch {
@@ -118,7 +133,13 @@ func (c *check) Init(tier string, seed int64) engine.Space {
 	}
 	// (iii) extras
 	c.cntCases = len(counterCases())
-	c.units = append(c.units, unit{fam: famCounters, lo: 0, hi: c.cntCases})
+	for lo := 0; lo < c.cntCases; lo += batch {
+		hi := lo + batch
+		if hi > c.cntCases {
+			hi = c.cntCases
+		}
+		c.units = append(c.units, unit{fam: famCounters, lo: lo, hi: hi})
+	}
 	// (ii)
 	c.heights = nil
 	for h := 10; h <= 70; h += 5 {
@@ -181,6 +202,8 @@ func (c *check) Init(tier string, seed int64) engine.Space {
 		Rule: "deviation-bounded product, simplest first: (i) every sequence of distinct @page rules up to the bound x every forced-page document; (ib) the product of page box width/height/margin/padding (each side)/border (each side)/min/max choices; (iii) every margin box name and page-context counter manipulation; (ii) per flow shape and page content height: the default flow, then every single deviation of the per-box menu and of the page-level menu (border/padding of the page box on one side, on opposite sides, all different, symmetric; the sheet grows so that the content box is unchanged), then every pair (then triples) of deviations in distinct slots. One case = one document laid out by layout.Layout and compared with the reference. A case is non-trivial when the reference pagination has >= 2 pages (flows) or the rule sequence/choice changes the geometry of at least one page (cascade, page box)",
 		Bounds: map[string]any{
 			"cascade_rule_menu": ruleTexts(), "cascade_max_rules": maxLen, "cascade_docs": cascadeDocs, "cascade_cases": nCascade,
+			"cascade_nth_menu": nthTexts(), "cascade_nth_docs": nthDocs, "cascade_nth_cases": nNth,
+			"cascade_nth_sequences": map[bool]string{false: "[x]; [x r], [r x] (x: a rule of the :nth menu, r: a rule of the first menu)", true: "[x]; [x r], [r x]; [x y] (ordered pairs of distinct :nth rules); [x r s], [r x s], [r s x] (ordered pairs of distinct rules of the first menu)"}[thorough],
 			"pagebox_cases": c.pbCases, "counter_cases": c.cntCases,
 			"flow_shapes_level1": c.shapes, "flow_shapes_level2": l2, "flow_shapes_level3": map[bool][]string{true: shapesThoroughL3, false: nil}[thorough],
 			"flow_heights_px": c.heights, "flow_cases": nFlow,
@@ -202,6 +225,14 @@ func pageDecoCSS(ch []choice) []string {
 	var out []string
 	for _, c := range ch {
 		out = append(out, c.value+" = @page{"+pageDecos[c.value].css()+"} (sheet enlarged by the same amount)")
+	}
+	return out
+}
+
+func nthTexts() []string {
+	var out []string
+	for _, r := range nthMenu {
+		out = append(out, r.text)
 	}
 	return out
 }
@@ -266,11 +297,14 @@ func (c *check) Describe(u int64) any {
 	switch un.fam {
 	case famCascade:
 		return map[string]any{"family": "cascade", "doc": cascadeDocs[un.doc], "rule_sequences": fmt.Sprintf("%d..%d", un.lo, un.hi-1), "first": seqText(c.seqs[un.lo]), "last": seqText(c.seqs[un.hi-1])}
+	case famNth:
+		return map[string]any{"family": "cascade-nth", "doc": nthDocs[un.doc], "rule_sequences": fmt.Sprintf("%d..%d", un.lo, un.hi-1), "first": seqText(c.nthSeqs[un.lo]), "last": seqText(c.nthSeqs[un.hi-1])}
 	case famPageBox:
 		pc := pageBoxCases()
 		return map[string]any{"family": "pagebox", "first": pc[un.lo].css, "last": pc[un.hi-1].css}
 	case famCounters:
-		return map[string]any{"family": "counters", "cases": un.hi - un.lo}
+		cc := counterCases()
+		return map[string]any{"family": "counters", "cases": un.hi - un.lo, "first": cc[un.lo].describe(), "last": cc[un.hi-1].describe()}
 	}
 	if un.level == 4 {
 		return map[string]any{"family": "flow", "preset": presetDocs[un.doc], "content_height_px": c.heights[un.h],
@@ -292,7 +326,7 @@ func (c *check) Describe(u int64) any {
 func seqText(seq []int) string {
 	var l []string
 	for _, i := range seq {
-		l = append(l, ruleMenu[i].text)
+		l = append(l, fullMenu[i].text)
 	}
 	return strings.Join(l, " ")
 }
@@ -302,7 +336,11 @@ func (c *check) Run(u int64, ctx *engine.Ctx) {
 	switch un.fam {
 	case famCascade:
 		for k := un.lo; k < un.hi; k++ {
-			c.runCascade(ctx, un.doc, c.seqs[k])
+			c.runCascade(ctx, cascadeDocs[un.doc], c.seqs[k])
+		}
+	case famNth:
+		for k := un.lo; k < un.hi; k++ {
+			c.runCascade(ctx, nthDocs[un.doc], c.nthSeqs[k])
 		}
 	case famPageBox:
 		pc := pageBoxCases()
@@ -310,8 +348,9 @@ func (c *check) Run(u int64, ctx *engine.Ctx) {
 			runPageBox(ctx, pc[k])
 		}
 	case famCounters:
-		for _, cc := range counterCases() {
-			runCounterCase(ctx, cc)
+		cc := counterCases()
+		for k := un.lo; k < un.hi; k++ {
+			runCounterCase(ctx, cc[k])
 		}
 	case famFlow:
 		thorough := c.tier == "thorough"
@@ -745,17 +784,18 @@ func report(ctx *engine.Ctx, desc string, feats []string, ms []mismatch, tail st
 
 // ---- family (i): @page cascade -------------------------------------------------------------
 
-func (c *check) runCascade(ctx *engine.Ctx, doc int, seq []int) {
-	s, dev := parseDoc(cascadeDocs[doc])
+func (c *check) runCascade(ctx *engine.Ctx, docSpec string, seq []int) {
+	s, dev := parseDoc(docSpec)
 	f := buildFlow(s)
 	rules := []prule{baseRule}
 	var css strings.Builder
 	css.WriteString(baseRule.text)
 	set := map[string]bool{"cascade": true}
 	for _, i := range seq {
-		rules = append(rules, ruleMenu[i])
-		css.WriteString(ruleMenu[i].text)
-		for _, sl := range ruleMenu[i].sels {
+		rules = append(rules, fullMenu[i])
+		css.WriteString(fullMenu[i].text)
+		nthFeatures(fullMenu[i], set)
+		for _, sl := range fullMenu[i].sels {
 			if sl.hasNth {
 				set["sel-nth"] = true
 			}
@@ -772,10 +812,10 @@ func (c *check) runCascade(ctx *engine.Ctx, doc int, seq []int) {
 				set["sel-name"] = true
 			}
 		}
-		if len(ruleMenu[i].sels) > 1 {
+		if len(fullMenu[i].sels) > 1 {
 			set["selector-list"] = true
 		}
-		for _, d := range ruleMenu[i].decls {
+		for _, d := range fullMenu[i].decls {
 			if d.important {
 				set["important"] = true
 			}
@@ -788,7 +828,7 @@ func (c *check) runCascade(ctx *engine.Ctx, doc int, seq []int) {
 		}
 	}
 	html := "<style>" + css.String() + "html,body{margin:0;font-family:ahem;font-size:10px;line-height:1;orphans:1;widows:1}p,div{margin:0}</style>" + s.body()
-	desc := fmt.Sprintf("cascade doc=%q html=%s", cascadeDocs[doc], html)
+	desc := fmt.Sprintf("cascade doc=%q html=%s", docSpec, html)
 	primary := f.paginate(1e6, variant{startRight: true})
 	for _, t := range flowFeatures(s, f, 10, dev, &primary) {
 		if t == "named-to-default-page" || t == "to-named-page" || t == "side-break" {
